@@ -15,7 +15,8 @@ RULE = ("routes generated from the documented grammar (hosts: IPv4 / names; opti
         "delete/insert/replace over the alphabet [0-9a-z./\\\\,:-] of sampled spellings is classified by the reference recogniser: "
         "still in grammar -> compare, in a listed rejection class -> must raise RequestError (parse) or DataError (encode), else "
         "don't-care; driver constructors (CIPDriver/LogixDriver/SLCDriver) are checked for the shortcut rules, also after a "
-        "Micro800-style route pop on another driver instance; end to end: malformed route strings handed to generic_message(route_path=...) of all three "
+        "Micro800-style route pop on another driver instance; end to end: the target listens on port 44818 / 2222 / 10001 / 65534 and is reached through cls.list_identity(path) and cls(path).open(); "
+        "malformed route strings handed to generic_message(route_path=...) of all three "
         "driver classes must raise / fail, and the driver's own route is byte-identical before and after get_module_info(other slot). distinct = (hop count, port spelling, link kind, separator set | "
         "edit class, rejection reason) evaluated")
 ASSUMPTIONS = [
